@@ -41,103 +41,133 @@ Proof.
   - apply IH. tauto.
 Qed.
 
-(* the loop of WorkflowAction.schedule, characterised pointwise for any state of the two
-   dictionaries (python dict: keys are unique) *)
-Lemma split_loop_spec : forall decl items inp par k,
+Lemma lookup_in : forall d k, lookup k d <> None -> In k (map fst d).
+Proof.
+  intros d k H. destruct (in_dec string_dec k (map fst d)) as [Hi|Hn]; [exact Hi|].
+  exfalso. apply H. apply lookup_notin. exact Hn.
+Qed.
+
+(* the loop of WorkflowAction.schedule when it is not refused, characterised pointwise for any
+   state of the two dictionaries (python dict: keys are unique); third clause: no undeclared
+   key met a param of its name *)
+Lemma split_loop_some : forall decl items inp par inp' par' k,
   NoDup (map fst items) ->
-  lookup k (fst (split_loop decl items inp par)) =
+  split_loop decl items inp par = Some (inp', par') ->
+  lookup k inp' =
     match lookup k items with
     | Some _ => if mem_key k decl then lookup k inp else None
     | None => lookup k inp
     end /\
-  lookup k (snd (split_loop decl items inp par)) =
+  lookup k par' =
     match lookup k items with
     | Some v => if mem_key k decl then lookup k par else Some v
     | None => lookup k par
-    end.
+    end /\
+  (lookup k items <> None -> mem_key k decl = false -> lookup k par = None).
 Proof.
-  intros decl items. induction items as [|[k0 v0] t IH]; intros inp par k ND.
-  - cbn. split; reflexivity.
+  intros decl items. induction items as [|[k0 v0] t IH]; intros inp par inp' par' k ND E.
+  - cbn in E. inversion E; subst. cbn. repeat split; congruence.
   - cbn [map fst] in ND. inversion ND as [|? ? Hnotin ND']; subst.
-    cbn [split_loop lookup].
+    cbn [split_loop] in E. cbn [lookup].
     destruct (mem_key k0 decl) eqn:Ed.
-    + destruct (IH inp par k ND') as [I1 I2]. rewrite I1, I2.
-      destruct (String.eqb k0 k) eqn:E; [|split; reflexivity].
-      apply String.eqb_eq in E. subst k0. rewrite (lookup_notin t k Hnotin), Ed. split; reflexivity.
-    + destruct (IH (dremove k0 inp) (dset k0 v0 par) k ND') as [I1 I2]. rewrite I1, I2.
-      rewrite lookup_dremove, lookup_dset.
-      destruct (String.eqb k0 k) eqn:E.
-      * apply String.eqb_eq in E. subst k0. rewrite (lookup_notin t k Hnotin), Ed. split; reflexivity.
-      * split; reflexivity.
+    + destruct (IH inp par inp' par' k ND' E) as [I1 [I2 I3]]. rewrite I1, I2.
+      destruct (String.eqb k0 k) eqn:Ek.
+      * apply String.eqb_eq in Ek. subst k0. rewrite (lookup_notin t k Hnotin), Ed.
+        repeat split; congruence.
+      * repeat split; auto.
+    + destruct (lookup k0 par) eqn:Ep; [discriminate E|].
+      destruct (IH _ _ inp' par' k ND' E) as [I1 [I2 I3]]. rewrite I1, I2.
+      rewrite lookup_dremove, lookup_dset in *.
+      destruct (String.eqb k0 k) eqn:Ek.
+      * apply String.eqb_eq in Ek. subst k0. rewrite (lookup_notin t k Hnotin), Ed.
+        repeat split; auto.
+      * repeat split; auto.
+Qed.
+
+Lemma split_loop_none : forall decl items inp par,
+  NoDup (map fst items) ->
+  split_loop decl items inp par = None ->
+  exists k, lookup k items <> None /\ mem_key k decl = false /\ lookup k par <> None.
+Proof.
+  intros decl items. induction items as [|[k0 v0] t IH]; intros inp par ND E.
+  - discriminate E.
+  - cbn [map fst] in ND. inversion ND as [|? ? Hnotin ND']; subst. cbn [split_loop] in E.
+    destruct (mem_key k0 decl) eqn:Ed.
+    + destruct (IH inp par ND' E) as [k [H1 [H2 H3]]]. exists k. cbn [lookup].
+      destruct (String.eqb k0 k); repeat split; auto; discriminate.
+    + destruct (lookup k0 par) eqn:Ep.
+      * exists k0. cbn [lookup]. rewrite String.eqb_refl, Ep. repeat split; auto; discriminate.
+      * destruct (IH _ _ ND' E) as [k [H1 [H2 H3]]]. exists k. cbn [lookup].
+        assert (Hne : String.eqb k0 k = false).
+        { apply String.eqb_neq. intros ->. apply Hnotin. apply lookup_in. exact H1. }
+        rewrite Hne. rewrite lookup_dset, Hne in H3. repeat split; auto.
 Qed.
 
 (* declared keys stay input with their values; undeclared keys leave the input *)
-Lemma param_split_input : forall decl input sys k,
-  NoDup (map fst input) ->
-  lookup k (fst (param_split decl input sys)) = if mem_key k decl then lookup k input else None.
+Lemma param_split_input : forall decl input sys inp' par' k,
+  NoDup (map fst input) -> param_split decl input sys = Some (inp', par') ->
+  lookup k inp' = if mem_key k decl then lookup k input else None.
 Proof.
-  intros decl input sys k ND. unfold param_split.
-  destruct (split_loop_spec decl input input sys k ND) as [H _]. rewrite H.
+  intros decl input sys inp' par' k ND E. unfold param_split in E.
+  destruct (split_loop_some decl input input sys inp' par' k ND E) as [H _]. rewrite H.
   destruct (lookup k input); destruct (mem_key k decl); reflexivity.
 Qed.
 
-(* undeclared keys become params with their values (overwriting a param of the same
-   name); every other param is what it was *)
-Lemma param_split_params : forall decl input sys k,
-  NoDup (map fst input) ->
-  lookup k (snd (param_split decl input sys)) =
+(* undeclared keys become params with their values; every other param is what it was *)
+Lemma param_split_params : forall decl input sys inp' par' k,
+  NoDup (map fst input) -> param_split decl input sys = Some (inp', par') ->
+  lookup k par' =
     match lookup k input with
     | Some v => if mem_key k decl then lookup k sys else Some v
     | None => lookup k sys
     end.
 Proof.
-  intros decl input sys k ND. unfold param_split.
-  destruct (split_loop_spec decl input input sys k ND) as [_ H]. exact H.
+  intros decl input sys inp' par' k ND E. unfold param_split in E.
+  destruct (split_loop_some decl input input sys inp' par' k ND E) as [_ [H _]]. exact H.
 Qed.
 
 (* nothing is dropped: every input key reaches the child as input or as a param, with its value *)
-Lemma param_split_nothing_dropped : forall decl input sys k v,
-  NoDup (map fst input) -> lookup k input = Some v ->
-  (mem_key k decl = true /\ lookup k (fst (param_split decl input sys)) = Some v) \/
-  (mem_key k decl = false /\ lookup k (snd (param_split decl input sys)) = Some v /\
-   lookup k (fst (param_split decl input sys)) = None).
+Lemma param_split_nothing_dropped : forall decl input sys inp' par' k v,
+  NoDup (map fst input) -> param_split decl input sys = Some (inp', par') -> lookup k input = Some v ->
+  (mem_key k decl = true /\ lookup k inp' = Some v) \/
+  (mem_key k decl = false /\ lookup k par' = Some v /\ lookup k inp' = None).
 Proof.
-  intros decl input sys k v ND H.
-  rewrite param_split_input, param_split_params by exact ND. rewrite H.
+  intros decl input sys inp' par' k v ND E H.
+  rewrite (param_split_input _ _ _ _ _ k ND E), (param_split_params _ _ _ _ _ k ND E). rewrite H.
   destruct (mem_key k decl); [left|right]; auto.
 Qed.
 
-(* a system param (root, parent task, index, namespace, notify) reaches the child as the
-   engine set it unless an undeclared input key of the same name exists *)
-Lemma param_split_sys_kept : forall decl input sys k,
+(* UNCONDITIONALLY: whenever a child is started, every system param (root, parent task, index,
+   namespace, notify) reaches it exactly as the engine set it *)
+Lemma param_split_sys_kept : forall decl input sys inp' par' k,
+  NoDup (map fst input) -> param_split decl input sys = Some (inp', par') ->
+  lookup k sys <> None -> lookup k par' = lookup k sys.
+Proof.
+  intros decl input sys inp' par' k ND E Hs. unfold param_split in E.
+  destruct (split_loop_some decl input input sys inp' par' k ND E) as [_ [H2 H3]]. rewrite H2.
+  destruct (lookup k input) eqn:Ei; [|reflexivity].
+  destruct (mem_key k decl) eqn:Ed; [reflexivity|].
+  exfalso. apply Hs. apply H3; congruence.
+Qed.
+
+(* the call is refused (InputException, nothing started) exactly when an undeclared input key
+   carries the name of a param the engine has set *)
+Lemma param_split_refused_iff : forall decl input sys,
   NoDup (map fst input) ->
-  (lookup k input = None \/ mem_key k decl = true) ->
-  lookup k (snd (param_split decl input sys)) = lookup k sys.
+  (param_split decl input sys = None <->
+   exists k, lookup k input <> None /\ mem_key k decl = false /\ lookup k sys <> None).
 Proof.
-  intros decl input sys k ND H. rewrite param_split_params by exact ND.
-  destruct H as [H|H]; rewrite H; [reflexivity|]. destruct (lookup k input); reflexivity.
+  intros decl input sys ND. split.
+  - apply split_loop_none. exact ND.
+  - intros [k [H1 [H2 H3]]]. destruct (param_split decl input sys) as [[inp' par']|] eqn:E; [|reflexivity].
+    exfalso. apply H3. unfold param_split in E.
+    destruct (split_loop_some decl input input sys inp' par' k ND E) as [_ [_ H]]. apply H; assumption.
 Qed.
 
-(* ... and is overwritten otherwise: the code lets an undeclared input key named like a
-   system param replace it (root_execution_id, task_execution_id, index, namespace, notify) *)
-Lemma param_split_sys_overwritten : forall decl input sys k v,
-  NoDup (map fst input) -> lookup k input = Some v -> mem_key k decl = false ->
-  lookup k (snd (param_split decl input sys)) = Some v.
-Proof.
-  intros decl input sys k v ND H1 H2. rewrite param_split_params by exact ND. rewrite H1, H2. reflexivity.
-Qed.
-
-Lemma sys_params_refuted :
-  exists decl input root task index ns,
-    NoDup (map fst input) /\
-    lookup "root_execution_id" (snd (param_split decl input (sys_params root task index ns None))) <> Some root /\
-    lookup "namespace" (snd (param_split decl input (sys_params root task index ns None))) <> Some ns.
-Proof.
-  exists ["a"], [("a", 1); ("root_execution_id", 7); ("namespace", 8)], 900, 901, 0, 902.
-  split.
-  - cbn. repeat constructor; cbn; intuition discriminate.
-  - vm_compute. split; intros H; discriminate H.
-Qed.
+(* the former witness of the override is now refused *)
+Lemma old_override_refused :
+  param_split ["a"] [("a", 1); ("root_execution_id", 7); ("namespace", 8)] (sys_params 90 91 0 92 None) = None.
+Proof. vm_compute. reflexivity. Qed.
 
 (* root propagation over any nesting depth: the root of the tree has no root id; every
    descendant records root_of (parent's root) (parent's id) *)
